@@ -43,8 +43,8 @@ import (
 
 type fwdCtx struct {
 	p       *core.Program
-	pos     *types.Var // Runner.Runtextpos
-	end     *types.Var // Runner.Runtextend
+	pos     *types.Var            // Runner.Runtextpos
+	end     *types.Var            // Runner.Runtextend
 	summary map[*ssa.Function]int // callee -> index of the parameter its non-negative results are >= of (-1: none)
 	busy    map[*ssa.Function]bool
 }
